@@ -8,6 +8,7 @@ import FP.Model.Enc.KFDC
 import FP.Model.Enc.KCoverC
 import FP.Model.Enc.KLAEC
 import FP.Model.Enc.KMPEC
+import FP.Model.ParserJson
 /-!
 # FP.Model.Enc.Handlers — the `lp.*` handlers of the encoder modules, for `Driver.lean`
 -/
@@ -16,6 +17,6 @@ open Lean
 
 def encHandlersAll : List (String → Json → Option (Except String Json)) :=
   [handleKLAE, handleKMPE, handleKCover, handleMGS, handleMSC, handleMEF,
-   handleKFDC, handleKCoverC, handleKLAEC, handleKMPEC]
+   handleKFDC, handleKCoverC, handleKLAEC, handleKMPEC, FP.Parser.handleParser]
 
 end FP
